@@ -16,8 +16,25 @@ BytesOf(s) == { s[i] : i \in 1..Len(s) }
 \* all strings over alphabet A of length at most n
 StrUpTo(A, n) == UNION { [1..k -> A] : k \in 0..n }
 
-\* concatenation of a sequence of strings
-Cat(ss) == Fold(LAMBDA acc, x : acc \o x, <<>>, ss)
+\* concatenation of a sequence of strings: ss[1] \o ss[2] \o ... \o ss[Len(ss)].  Written as a balanced tree of
+\* concatenations (depth log n) so that values of tens of thousands of bytes are handled in n log n, not n^2, steps.
+RECURSIVE CatRange(_, _, _)
+CatRange(ss, lo, hi) == IF lo > hi THEN <<>>
+                        ELSE IF lo = hi THEN ss[lo]
+                        ELSE LET m == (lo + hi) \div 2 IN CatRange(ss, lo, m) \o CatRange(ss, m + 1, hi)
+Cat(ss) == CatRange(ss, 1, Len(ss))
+
+\* A one-pass reader of a string: a left fold whose state is a record with a field `o', the output so far, that
+\* step(st, c) only ever appends to and never reads.  ReadFold(step, st0, s) = Fold(step, st0, s); it is evaluated block
+\* by block (the output of each block collected separately, then concatenated) so that long strings stay cheap.
+ReadBlock == 128
+ReadFold(step(_, _), st0, s) ==
+    IF Len(s) <= ReadBlock THEN Fold(step, st0, s)
+    ELSE LET nb == (Len(s) + ReadBlock - 1) \div ReadBlock
+             blk(k) == SubSeq(s, (k - 1) * ReadBlock + 1, IF k * ReadBlock < Len(s) THEN k * ReadBlock ELSE Len(s))
+             one(acc, k) == LET r == Fold(step, [acc.st EXCEPT !.o = <<>>], blk(k)) IN [st |-> r, os |-> Append(acc.os, r.o)]
+             r == Fold(one, [st |-> st0, os |-> <<st0.o>>], [k \in 1..nb |-> k])
+         IN [r.st EXCEPT !.o = Cat(r.os)]
 
 StartsWith(s, p) == Len(p) <= Len(s) /\ SubSeq(s, 1, Len(p)) = p
 EndsWith(s, p)   == Len(p) <= Len(s) /\ SubSeq(s, Len(s) - Len(p) + 1, Len(s)) = p
